@@ -20,6 +20,7 @@ import (
 	"strconv"
 	"strings"
 	"sync"
+	"sync/atomic"
 	"testing"
 	"time"
 )
@@ -88,15 +89,15 @@ type Case struct {
 
 // Result is what a case function returns.
 type Result struct {
-	Verdict    string           `json:"verdict"`
-	Clause     string           `json:"clause,omitempty"`      // which clause of the property was violated
-	FindingKey string           `json:"finding_key,omitempty"` // stable identity of a violation (seed independent)
-	Sig        string           `json:"sig,omitempty"`         // signature used to count distinct cases
-	NonTrivial bool             `json:"nontrivial"`
-	Desc       any              `json:"desc,omitempty"`    // the generated scenario (always written; used for replay)
-	Witness    any              `json:"witness,omitempty"` // offending events
-	Note       string           `json:"note,omitempty"`
-	Stats      map[string]int64 `json:"stats,omitempty"`
+	Verdict    string              `json:"verdict"`
+	Clause     string              `json:"clause,omitempty"`      // which clause of the property was violated
+	FindingKey string              `json:"finding_key,omitempty"` // stable identity of a violation (seed independent)
+	Sig        string              `json:"sig,omitempty"`         // signature used to count distinct cases
+	NonTrivial bool                `json:"nontrivial"`
+	Desc       any                 `json:"desc,omitempty"`    // the generated scenario (always written; used for replay)
+	Witness    any                 `json:"witness,omitempty"` // offending events
+	Note       string              `json:"note,omitempty"`
+	Stats      map[string]int64    `json:"stats,omitempty"`
 	Sets       map[string][]string `json:"sets,omitempty"` // named sets, unioned by the runner (distinct things observed)
 }
 
@@ -141,7 +142,12 @@ type writer struct {
 var (
 	outOnce sync.Once
 	out     *writer
+	// violations counts violated cases of the running workload; the loop stops handing out cases after
+	// maxViolationsPerWorkload of them (every one of them is still reported).
+	violations atomic.Int64
 )
+
+const maxViolationsPerWorkload = 25
 
 func getOut(e Env) *writer {
 	outOnce.Do(func() {
@@ -196,12 +202,18 @@ func Loop(t *testing.T, meta Meta, par int, fn func(c *Case) Result) {
 			}
 		}()
 	}
+	stoppedAt := -1
 	for i := from; i < to; i++ {
+		// a broken tree makes many cases wait for their watchdogs: enough witnesses is enough
+		if violations.Load() >= maxViolationsPerWorkload {
+			stoppedAt = i
+			break
+		}
 		idx <- i
 	}
 	close(idx)
 	wg.Wait()
-	w.emit(map[string]any{"ev": "done", "workload": meta.Workload, "from": from, "to": to})
+	w.emit(map[string]any{"ev": "done", "workload": meta.Workload, "from": from, "to": to, "stopped_early_at": stoppedAt})
 }
 
 func runOne(t *testing.T, e Env, w *writer, meta Meta, i int, fn func(c *Case) Result) {
@@ -220,6 +232,9 @@ func runOne(t *testing.T, e Env, w *writer, meta Meta, i int, fn func(c *Case) R
 		}()
 		res = fn(c)
 	}()
+	if res.Verdict == Violated {
+		violations.Add(1)
+	}
 	w.emit(map[string]any{"ev": "end", "workload": meta.Workload, "case": i, "ms": time.Since(t0).Milliseconds(), "res": res})
 }
 
